@@ -27,7 +27,7 @@ BUDGET = {"quick": (1200, 4), "thorough": (26000, 16)}
 
 def _cfg(tier):
     return S.Cfg(max_items=12 if tier != "quick" else 7, depth=3 if tier != "quick" else 2, params=True, options=False,
-                 ascii_only=False, whole_array_odds=1)
+                 ascii_only=False, whole_array_odds=1, complex_coefficients=True)
 
 
 def param_slots(script):
